@@ -323,7 +323,7 @@ def _flips(item, seed, tier):
 def run(ctx):
     quick = ctx.tier == "quick"
     bases = [1, 300, 65000, 65437, 65500, 65535] if quick else [1, 2, 7, 99, 300, 40000, 65436, 65437, 65438, 65500, 65534, 65535]
-    depth = 2 if quick else 7
+    depth = 2 if quick else 5
     work = [(b, depth, SYMS) for b in bases]
     # deeper on the symbols that carry state across steps (database replacement, the neighbour pairing, per-characteristic history)
     CARRY = ["+1", "+1:iid12", "+1:iid15", "db-swap", "neighbour:+1", "cross:from-neighbour", "same", "old:1", "unknown-iid"]
